@@ -18,7 +18,7 @@ import z3
 from pyvc.contract import Contract, State
 from pyvc.values import SInt, SBool, SObj, SOpaque, Sym, Unsupported, PyRaise, zint, zbool
 from pyvc.nparr import Vec, qforall, qexists, I
-from pyvc.bytesdom import BytesV, StrV, Sha1, Digest, Hashlib, SymSeq, MappedSeq, Unordered, bcat, beq, uid, DG
+from pyvc.bytesdom import BytesV, StrV, Sha1, Digest, Hashlib, SymSeq, MappedSeq, Unordered, bcat, beq, parts_equal, uid, DG
 from pyvc.interp import Loop
 from pyvc.ops import Builtin, ClassRef
 
@@ -233,7 +233,7 @@ class TwoRuns(Contract):
         for run in (1, 2):
             S.current_run = run
             before = len(S.registry)
-            d = call(self.target, S.data[run]) if self.target.endswith('nutils_hash') else self.invoke(cx, S, call, run)
+            d = call(self.target, S.data[run])
             if not isinstance(d, Digest) or d.source is None:
                 raise Unsupported('nutils_hash returned %r' % (d,))
             S.bufs[run] = d.source
@@ -407,14 +407,14 @@ class SetLike(TwoRuns):
             famk, famv = Family(cx, 'key.run%d' % run), Family(cx, 'val.run%d' % run)
             abstract = {}
             tn = self.typename(cx, run)
-        if self.kind == 'dict':
+        if self.kind in ('dict', 'frozendict'):
             elem = lambda e: (Child(famk, e), Child(famv, e))
         else:
             elem = lambda e: Child(famk, e)
         seq = Unordered(cx, n, elem, 'iter.run%d' % run, abstract)
         abstract['elem_block'] = True
         d = Data(cx, self.kind, run, typename=tn, seq=seq, n=n, famk=famk, famv=famv, abstract=abstract)
-        if self.kind == 'dict':
+        if self.kind in ('dict', 'frozendict'):
             d.attrs = {'items': lambda ctx: seq}
         return d
 
@@ -423,8 +423,13 @@ class SetLike(TwoRuns):
         S.block_of = lambda it, j: it.seq_at(cx, j)
         return S
 
+    def replay(self, ob):
+        import os
+        here = os.path.dirname(os.path.dirname(os.path.abspath(__file__)))
+        return "import sys; sys.path.insert(0, %r)\nfrom native import c17\nc17.order_independence()\n" % here
+
     def make_loops(self, S):
-        inv = block_invariant(S, lambda it: 40 if self.kind == 'dict' else 20)
+        inv = block_invariant(S, lambda it: 40 if self.kind in ('dict', 'frozendict') else 20)
         return {0: Loop(inv, label='blocks', match=('for item in sorted', 'for item in map', 'for item in data', 'for item in (', 'for k, v in'))}
 
     def ensures(self, cx, S, result):
@@ -434,7 +439,7 @@ class SetLike(TwoRuns):
             # appended in iteration j.  Order independence: same length, same prefix, and the same block at every j for
             # the two iteration orders; pointwise equality of the buffers follows (every position past the prefix is
             # base + w*j + b for exactly one (j, b): L-DIVMOD).
-            w = 40 if self.kind == 'dict' else 20
+            w = 40 if self.kind in ('dict', 'frozendict') else 20
             (base1, pre1, it1), (base2, pre2, it2) = S.snap[('pre', 1)], S.snap[('pre', 2)]
             n = S.data[1].n
             A1 = lambda j: S.block_of(it1, j)
@@ -451,10 +456,284 @@ class SetLike(TwoRuns):
         return d1.n == d2.n
 
 
+# ---- __nutils_hash__ of Immutable / DataClass / frozendict ----------------------------------------------------------------
+
+def name_hooks(cx, S):
+    """'{}.{}:{}\\0'.format(module, qualname, version) / f'{module}.{qualname}\\0': a type-identifying name.  The NUL
+    terminator is read from the literal template; the rest is an opaque NUL-free byte string per run."""
+    def make(template_tail_has_nul, run):
+        key = 1 if getattr(S, 'same_name', False) else run
+        if key not in S.names:
+            S.names[key] = BytesV.fresh_bytes(cx, 'qualified-name.run%d' % key, nonzero=True)
+        S.names[run] = nm = S.names[key]
+        return StrV(bcat(nm, BytesV.of(b'\0'), cx) if template_tail_has_nul else nm)
+
+    def fmt(template, a, k):
+        if template == '{:04d}':
+            return StrV(S.count_bytes(a[0]))
+        return make(template.endswith('\0'), S.current_run)
+
+    def fstr(parts):
+        lits = [p for p in parts if isinstance(p, str)]
+        return make(bool(lits) and lits[-1].endswith('\0'), S.current_run)
+    cx.format_hook, cx.fstring_hook = fmt, fstr
+
+
+class ObjHash(TupleLike):
+    """Immutable.__nutils_hash__ / DataClass.__nutils_hash__: qualified name + NUL, then one digest per argument."""
+
+    def __init__(self, which):
+        self.which = which
+        TwoRuns.__init__(self)
+        self.kind = which
+        self.label = which
+        self.fn = self.target = {'Immutable': 'types:Immutable.__nutils_hash__', 'DataClass': 'types:DataClass.__nutils_hash__'}[which]
+        self.loop_matches = ('for arg in self._args', 'for name in self.__signature__')
+
+    def setup(self, cx):
+        S = TwoRuns.setup(self, cx)
+        S.names = {}
+        name_hooks(cx, S)
+        S.block_of = lambda it, j: it.fam.digest(cx, j)
+        return S
+
+    def make(self, cx, S, run):
+        n = cx.int('nargs.run%d' % run)
+        cx.assume(n >= 0)
+        fam = Family(cx, 'arg.run%d' % run)
+        seq = Blocks(n, lambda j: Child(fam, j), 20, 'args')
+        seq.fam = fam
+        d = Data(cx, self.which, run, typename=None, seq=None, fam=fam, n=n)
+        if self.which == 'Immutable':
+            d.attrs = {'_args': seq}
+        else:
+            names = Blocks(n, lambda j: FieldName(fam, j), 20, 'params')
+            names.fam = fam
+            d.attrs = {'__signature__': SObj('Signature', attrs={'parameters': names})}
+        return d
+
+    def base_globals(self, cx, S):
+        g = super().base_globals(cx, S)
+        g['getattr'] = lambda ctx, o, nm: Child(nm.fam, nm.j) if isinstance(nm, FieldName) else (_ for _ in ()).throw(Unsupported('getattr'))
+        return g
+
+    def names(self, S, run):
+        return S.names[run]
+
+
+class FieldName(Sym):
+    def __init__(self, fam, j):
+        self.fam, self.j = fam, j
+
+
+class FrozenDictHash(SetLike):
+    def __init__(self, same_set):
+        SetLike.__init__(self, 'dict', same_set)
+        self.kind = 'frozendict'
+        self.label = 'frozendict,%s' % ('same-set-two-orders' if same_set else 'two-sets')
+        self.fn = self.target = 'types:frozendict.__nutils_hash__'
+
+    def setup(self, cx):
+        S = SetLike.setup(self, cx)
+        S.names = {}
+        S.same_name = self.same_set  # the same object hashed under two iteration orders has one type
+        name_hooks(cx, S)
+        return S
+
+    def make(self, cx, S, run):
+        d = SetLike.make(self, cx, S, run)
+        d.attrs = {'items': (lambda ctx, seq=d.seq: seq)}
+        if run == 2 and self.same_set:
+            S.names = getattr(S, 'names', {})
+        return d
+
+    def names(self, S, run):
+        if self.same_set:
+            return S.names[1] if 1 in S.names else S.names[run]
+        return S.names[run]
+
+
+# ---- seekable file objects ------------------------------------------------------------------------------------------------
+
+DLEN = z3.Function('decimal_len', I, I)
+DIG = z3.Function('decimal_digit', I, I, I)
+
+
+class FileData(Data):
+    def __init__(self, cx, run, typename):
+        Data.__init__(self, cx, 'BufferedIOBase', run, typename=typename)
+        self.content = BytesV.fresh_bytes(cx, 'file-content.run%d' % run)
+        self.pos = cx.int('file-pos.run%d' % run)
+        cx.assume(self.pos >= 0)
+        self.off = z3.IntVal(0)
+        self.seeks = []
+
+    def getattr(self, ctx, name):
+        if name == '__nutils_hash__':
+            raise PyRaise('AttributeError')
+        if name == 'seekable':
+            return lambda ctx: True
+        if name == 'tell':
+            return lambda ctx: SInt(self.pos)
+        if name == 'seek':
+            def seek(ctx, p):
+                self.seeks.append(p)
+                if isinstance(p, int) and p == 0:
+                    self.off = z3.IntVal(0)
+            return seek
+        if name == 'read':
+            def read(ctx, size):
+                # returns the next 0 <= n <= size bytes; empty exactly at end of file
+                n = ctx.int('chunklen', report=False)
+                off, c = self.off, self.content
+                ctx.assume(z3.And(n >= 0, n <= zint(size), off + n <= c.n, (n == 0) == (off == c.n)), axiom='file.read(k): the next n <= k bytes, empty exactly at end of file')
+                self.off = off + n
+                ch = BytesV(n, lambda i: c.sel(off + i), 'chunk')
+                return ch
+            return read
+        raise Unsupported('file.' + name)
+
+
+class FileBranch(TwoRuns):
+    kind = 'BufferedIOBase'
+    label = 'seekable-file'
+    split_conjunctions = True
+
+    def __init__(self):
+        TwoRuns.__init__(self)
+        self.label = 'seekable-file'
+
+    def make_loops(self, S):
+        def inv(cx, env):
+            h, chunk = env.lookup('h'), env.lookup('chunk')
+            d = S.data[S.current_run]
+            key = ('filepre', S.current_run)
+            if key not in S.snap:
+                S.snap[key] = (h.buf.n, h.buf.sel)
+            base, pre = S.snap[key]
+            c, off = d.content, d.off
+            done = off - chunk.n
+            return z3.And(chunk.n >= 0, done >= 0, off <= c.n, (chunk.n == 0) == (done == c.n), h.buf.n == base + done,
+                          qforall(1, lambda k: z3.Implies(z3.And(0 <= k, k < base), h.buf.sel(k) == pre(k))),
+                          qforall(1, lambda k: z3.Implies(z3.And(0 <= k, k < done), h.buf.sel(base + k) == c.sel(k))),
+                          qforall(1, lambda k: z3.Implies(z3.And(0 <= k, k < chunk.n), chunk.sel(k) == c.sel(done + k))))
+
+        def havoc_file(cx, env):
+            d = S.data[S.current_run]
+            d.off = cx.int('file-offset', report=False)
+        return {0: Loop(inv, label='chunks', match='while chunk', on_havoc=havoc_file)}
+
+    def make(self, cx, S, run):
+        return FileData(cx, run, self.typename(cx, run))
+
+    def base_globals(self, cx, S):
+        g = super().base_globals(cx, S)
+
+        def pystr(ctx, x):
+            p = zint(x)
+            n = DLEN(p)
+            ctx.assume(z3.And(n >= 1, qforall(1, lambda i: z3.Implies(z3.And(0 <= i, i < n), z3.And(DIG(p, i) >= 48, DIG(p, i) <= 57)))), axiom="str(int): a non-empty string of ASCII digits, injective in the integer")
+            return StrV(BytesV(n, lambda i: DIG(p, i), 'decimal'))
+        g['str'] = pystr
+        return g
+
+    def replay(self, ob):
+        import os
+        here = os.path.dirname(os.path.dirname(os.path.abspath(__file__)))
+        return "import sys; sys.path.insert(0, %r)\nfrom native import c17\nc17.file_collision()\n" % here
+
+    def payload_equal(self, cx, S):
+        d1, d2 = S.data[1], S.data[2]
+        p, q = d1.pos, d2.pos
+        cx.assume(z3.Implies(z3.And(DLEN(p) == DLEN(q), qforall(1, lambda i: z3.Implies(z3.And(0 <= i, i < DLEN(p)), DIG(p, i) == DIG(q, i)))), p == q),
+                  axiom="str(int): a non-empty string of ASCII digits, injective in the integer")
+        return z3.And(p == q, beq(d1.content, d2.content))
+
+    def ensures(self, cx, S, result):
+        out = super().ensures(cx, S, result)
+        ok = all(len(S.data[r].seeks) == 2 and S.data[r].seeks[0] == 0 and isinstance(S.data[r].seeks[1], SInt) and z3.eq(S.data[r].seeks[1].v, S.data[r].pos) for r in (1, 2))
+        out.append(('file-position-restored', z3.BoolVal(ok)))
+        return out
+
+
+class ArrData(Data):
+    """numpy.ndarray: a value (its C-order element bytes, shape, dtype) stored in some memory layout."""
+
+    def __init__(self, cx, run, typename, valuebytes, header):
+        Data.__init__(self, cx, 'ndarray', run, typename=typename)
+        self.valuebytes, self.header = valuebytes, header
+        self.layoutbytes = BytesV.fresh_bytes(cx, 'layout-order-bytes.run%d' % run)
+
+    def getattr(self, ctx, name):
+        if name == '__nutils_hash__':
+            raise PyRaise('AttributeError')
+        if name == 'shape':
+            return (SInt(ctx.int('dim', report=False)),)
+        if name == 'dtype':
+            return SObj('dtype', attrs={'str': SOpaque('str'), 'kind': 'f'})
+        if name == 'tobytes':
+            def tobytes(ctx, order='C'):
+                ctx.used_axioms.add("ndarray.tobytes() (order 'C'): the element values in row-major order, whatever the memory layout; other orders depend on the layout")
+                if order in ('C', None):
+                    return self.valuebytes
+                return self.layoutbytes
+            return tobytes
+        raise Unsupported('ndarray.' + name)
+
+
+class ArrayBranch(TwoRuns):
+    kind = 'ndarray'
+
+    def __init__(self, same_value):
+        self.same_value = same_value
+        TwoRuns.__init__(self)
+        self.label = 'ndarray,' + ('same-value-two-layouts' if same_value else 'two-arrays')
+
+    def setup(self, cx):
+        S = TwoRuns.setup(self, cx)
+        S.names = {}
+        S.same_name = self.same_value
+        name_hooks(cx, S)  # the '{shape}{dtype}\\0' header: NUL-terminated, a function of shape and dtype
+        return S
+
+    def make(self, cx, S, run):
+        if run == 2 and self.same_value:
+            d1 = S.data[1]
+            return ArrData(cx, run, d1.typename, d1.valuebytes, None)
+        return ArrData(cx, run, self.typename(cx, run), BytesV.fresh_bytes(cx, 'element-bytes.run%d' % run), None)
+
+    def ensures(self, cx, S, result):
+        b1, b2 = S.bufs[1], S.bufs[2]
+        if self.same_value:
+            return [('layout-independent', parts_equal(b1, b2))]
+        eq = beq(b1, b2)
+        n1, n2 = S.data[1].typename, S.data[2].typename
+        return [('name-prefix', z3.Implies(eq, beq(n1, n2))),
+                ('payload', z3.Implies(z3.And(eq, beq(n1, n2)), z3.And(beq(S.names[1], S.names[2]), beq(S.data[1].valuebytes, S.data[2].valuebytes))))]
+
+    def replay(self, ob):
+        import os
+        here = os.path.dirname(os.path.dirname(os.path.abspath(__file__)))
+        return "import sys; sys.path.insert(0, %r)\nfrom native import c17\nc17.ndarray_layout()\n" % here
+
+
+class FileBranchSameDigits(FileBranch):
+    """carve-out of the recorded finding: the two positions have the same number of decimal digits"""
+
+    def __init__(self):
+        FileBranch.__init__(self)
+        self.label = 'seekable-file+same-number-of-position-digits'
+
+    def payload_equal(self, cx, S):
+        cx.assume(DLEN(S.data[1].pos) == DLEN(S.data[2].pos))
+        return FileBranch.payload_equal(self, cx, S)
+
+
 def contracts():
-    cs = [Leaf('int'), Leaf('str'), Leaf('bytes'), Leaf('type'), Singleton('NoneType'),
+    cs = [FileBranch(), FileBranchSameDigits(), ArrayBranch(True), ArrayBranch(False), Leaf('int'), Leaf('str'), Leaf('bytes'), Leaf('type'), Singleton('NoneType'),
           TupleLike('tuple'), TupleLike('getnewargs'),
-          SetLike('frozenset', True), SetLike('frozenset', False), SetLike('dict', True), SetLike('dict', False)]
+          SetLike('frozenset', True), SetLike('frozenset', False), SetLike('dict', True), SetLike('dict', False),
+          ObjHash('Immutable'), ObjHash('DataClass'), FrozenDictHash(True), FrozenDictHash(False)]
     return cs
 
 
